@@ -17,6 +17,7 @@ for paths without back-quotes (counterexample below).
 -/
 import StubGen.Proofs.PathConv
 import StubGen.Proofs.Files
+import StubGen.Proofs.ShortestMem
 
 namespace StubGen.C10
 
@@ -176,6 +177,19 @@ theorem modulePackage_eq (env : Env) (m : Module) :
       if (shortestPublicReexport env.api.reexportMap m.name "" true).1 != ""
       then (shortestPublicReexport env.api.reexportMap m.name "" true).1
       else joinWith "." (splitSlash m.id) := rfl
+
+/-- … and it is never a third thing: the package a module stub announces (and the directory it is written to) is the module's
+    own dotted id, or the dotted id of a module that stands in the re-export map (`Proofs/ShortestMem`: the result of
+    `_get_shortest_public_reexport` is empty or the id of one of the re-exporting modules) -/
+theorem module_package_own_or_reexporter (env : Env) (m : Module) :
+    modulePackage env m = joinWith "." (splitSlash m.id) ∨
+    ∃ kv ∈ env.api.reexportMap, ∃ r ∈ kv.2, modulePackage env m = joinWith "." (splitSlash r.id) := by
+  unfold modulePackage
+  rcases sm_shortest_is_reexporter env.api.reexportMap m.name "" true with h | ⟨kv, hkv, r, hr, h⟩
+  · left; rw [h]; simp
+  · split
+    · right; exact ⟨kv, hkv, r, hr, h⟩
+    · left; rfl
 
 /-- the directory segments of `pkg.replace(".", "/")` are exactly the dot-segments of the announced path -/
 theorem dir_segments_are_dot_segments (pkg : String) (h : '/' ∉ pkg.toList) :
